@@ -85,9 +85,10 @@ theorem identity_not_replace (diff : Differ) (hid : IdentityDiffer diff) (st : S
 /-- **`hasEqualizedGroups`** for device group `gai` and target group `gbi`. -/
 theorem eqGroups_sim {sh : Shared} {Ref : String → Prop} (diff : Differ) (hd : GoodDiffer diff)
     (hid : IdentityDiffer diff) (fuel : Nat) (st : St) (vg : Vsys) (gai gbi : Nat) (ga : AGrp) (gb : BGrp)
-    (hI : GInv Ref st) (hS : SimG sh st vg) (hga : st.aGrp[gai]? = some ga) (hgb : st.bGrp[gbi]? = some gb) :
+    (hI : GInv Ref st) (hS : SimG sh Ref st vg) (hga : st.aGrp[gai]? = some ga) (hgb : st.bGrp[gbi]? = some gb)
+    (hrefgb : Ref gb.g.name) :
     ∃ b st' vg', eqGroups (hasEqLists diff (fuel + 1)) st gai gbi = (b, st') ∧ Step sh st vg st' vg' [] ∧
-      GInv Ref st' ∧ SimG sh st' vg' ∧
+      GInv Ref st' ∧ SimG sh Ref st' vg' ∧
       (b = true → ∃ gb', st'.bGrp[gbi]? = some gb' ∧ gb'.onDev = ga.g.name) ∧
       (b = false → st' = st ∧ vg' = vg ∧
         ((gb.onDev ≠ "" ∧ gb.onDev ≠ ga.g.name) ∨
@@ -137,7 +138,7 @@ theorem eqGroups_sim {sh : Shared} {Ref : String → Prop} (diff : Differ) (hd :
               · cases h
               · simp only [List.mem_cons, List.not_mem_nil, or_false, MPath.addCmd, Cmd.setGrp.injEq] at h
                 rw [h.2] at hm
-                exact hS.mems gb hgbmem m (insertedOf_mem gb.g.members hvf hm))
+                exact hS.mems gb hgbmem hrefgb m (insertedOf_mem gb.g.members hvf hm))
         have hgrp : ∀ c ∈ cs, c.isGrpMem = true ∧ c.grpTarget = ga.g.name := by
           intro c hc
           rcases hon' c hc with ⟨m, rfl⟩ | ⟨ms', rfl⟩ <;> exact ⟨rfl, rfl⟩
@@ -157,7 +158,7 @@ theorem eqGroups_sim {sh : Shared} {Ref : String → Prop} (diff : Differ) (hd :
         -- the invariants do not look at the output
         have hI1 : GInv Ref (st.emitAll cs) := ⟨hI.anodup, hI.bnodup, hI.ane, hI.fresh, hI.aplain, hI.bplain,
           hI.amemnd, hI.bmemnd, hI.c0, hI.c1, hI.c2, hI.c3, hI.bne⟩
-        have hS1 : SimG sh (st.emitAll cs) vg := ⟨hS.U, hS.K, hS.anames, hS.mems⟩
+        have hS1 : SimG sh Ref (st.emitAll cs) vg := ⟨hS.U, hS.K, hS.anames, hS.mems⟩
         refine ⟨true, claimSt (st.emitAll cs) gai gbi ga.g.name, vg', rfl, ?_, hI1.claim gai gbi ga gb hga hgb hon,
           hS1.claim hI1 gai gbi ga gb hga hgb hn t6 (fun m => addrRefOk_congr sh t2 t6 m) hoth
             ⟨r', hl', hsm.symm.trans (SameMem.of_perm hperm)⟩, ?_, (fun h => by cases h)⟩
